@@ -287,9 +287,9 @@ theorem sum_map_le {α : Type} (f : α → Nat) (b : Nat) (h : ∀ x, f x ≤ b)
     omega
 
 /-- **odt_columns_bounded**. The column widths of an ODT table number at most 1024 per
-`table:table-column` element (and at least one per element). -/
+`table:table-column` element (direct or inside grouping elements). -/
 theorem odt_columns_bounded (tbl : Node) :
-    Odt.columnCount tbl ≤ 1024 * (childrenNamed tbl.kids Odt.sTableColumn).length := by
+    Odt.columnCount tbl ≤ 1024 * (Odt.tableColumns tbl).length := by
   unfold Odt.columnCount
   exact sum_map_le _ 1024 (fun col => (boundedSpan_range _).2) _
 
@@ -386,6 +386,13 @@ source order; a row is cut short only if it overflows the grid. -/
 theorem odt_table_grid (tbl : Node) : Odt.RowsKept (Odt.parseTable tbl) (Odt.parseRows tbl) := by
   unfold Odt.parseTable Odt.processRowSpans
   exact Odt.live_spanRows _ _ _ (Odt.parseRows_live tbl)
+
+/-- **odt_placeholders_blank**. Every covered cell of a parsed ODT table is the blank 1x1
+placeholder: it holds no text and no span of its own (whatever the authored cells say). -/
+theorem odt_placeholders_blank (tbl : Node) (row : List Odt.Cell) (c : Odt.Cell)
+    (hrow : row ∈ Odt.parseTable tbl) (hc : c ∈ row) (hcov : c.covered = true) : c = Odt.coveredCell := by
+  unfold Odt.parseTable Odt.processRowSpans at hrow
+  exact Odt.covered_blank_spanRows _ _ _ (Odt.parseRows_live tbl) row hrow c hc hcov
 
 /-- the authored grid itself: row r, cell i is the i-th `table:table-cell` of the r-th `table:table-row` -/
 theorem odt_cell_authored (tc : Node) :
